@@ -6,8 +6,14 @@ import PSO.Proofs.RaftDemo
 The byte level (the journal file reopens to the same entries after a kill at any primitive write;
 the dump file is never torn) is `PSO.C08` and `PSO.C09`.  Here: the protocol consequences, for every
 execution of `PSO.Raft.step` with any number of `restart` actions (all nodes at once included).
-Recorded exceptions on the implementation side: D15 (head drop of the journal is not kill-safe) and
-D17 (journal without dump file + compaction), see known_findings.json / DESIGN.md.
+That the implementation's kill + restart IS the action `restart n c a` (same log, term and vote,
+`c ≤ commit`, `a ≤ c`) at every kill point — between two events, right after a send, between two
+storage writes — is what `harness/corr/restart_schedules.py` and `restart_crashpoints.py` test on the
+real code.  The three implementation defects that broke it are repaired in /repo (see the `fixed:`
+list of known_findings.json / DESIGN.md): D14 (restart on an untrimmed journal cleared it, 65aa36f),
+D15 (head drop of the journal was not kill-safe, 4be213c: the kept entries go to a new file that
+replaces the journal in one step) and D17 (journal without dump file + compaction: nothing applied
+after a restart, 410e23b: such a journal gets a dump file next to it).  No exception is left open.
 -/
 namespace PSO.C06
 open PSO.Raft
